@@ -12,7 +12,7 @@ open HapVerif.Tlv HapVerif.Spec.Tlv8
     kept apart), values of any length including zero. -/
 theorem C15_roundtrip (l : Items) (h : WF l) : decode none (encodeList l) = .ok l := by
   unfold decode
-  rw [decode_list l [] _ h (by cases l <;> simp [headKeyNe]) (Nat.le_refl _)]
+  rw [decodeAux_none, decode_list l [] _ h (by cases l <;> simp [headKeyNe]) (Nat.le_refl _)]
   simp
 
 example : WF [(1, [3, 4]), (255, []), (1, [9]), (7, []), (3, List.replicate 600 5)] := by
@@ -61,13 +61,13 @@ theorem C15_accepts_peer (l : Items) (o : Bytes) (hwf : WF l) (h : Canonical l o
     parse error - no other outcome exists. -/
 theorem C15_decode_total (ex : Option (List UInt8)) (bs : Bytes) :
     (∃ items, decode ex bs = .ok items) ∨ decode ex bs = .error .parse := by
-  have aux : ∀ (fuel : Nat) (bs : Bytes) (acc : Items),
-      (∃ r, decodeAux ex fuel bs acc = .ok r) ∨ decodeAux ex fuel bs acc = .error .parse := by
+  have aux : ∀ (fuel : Nat) (bs : Bytes) (acc : Items) (sk : Bool),
+      (∃ r, decodeAux ex fuel bs acc sk = .ok r) ∨ decodeAux ex fuel bs acc sk = .error .parse := by
     intro fuel
     induction fuel with
-    | zero => intro bs acc; exact Or.inl ⟨acc, by simp [decodeAux]⟩
+    | zero => intro bs acc sk; exact Or.inl ⟨acc, by simp [decodeAux]⟩
     | succ n ih =>
-      intro bs acc
+      intro bs acc sk
       match bs with
       | [] => exact Or.inl ⟨acc, by simp [decodeAux]⟩
       | [k] =>
@@ -78,42 +78,106 @@ theorem C15_decode_total (ex : Option (List UInt8)) (bs : Bytes) :
       | k :: len :: rest =>
         simp only [decodeAux]
         split
-        · exact Or.inl ⟨acc, rfl⟩
+        · exact ih _ _ _
         · split
           · exact Or.inr rfl
-          · exact ih _ _
+          · exact ih _ _ _
   unfold decode
-  rcases aux bs.length bs [] with ⟨r, hr⟩ | hr
+  rcases aux bs.length bs [] false with ⟨r, hr⟩ | hr
   · rw [hr]; exact Or.inl ⟨_, rfl⟩
   · rw [hr]; exact Or.inr rfl
 
 /-- A successful decode never returns a value shorter than declared: the input is exactly a
-    sequence of complete wire items (followed, when a filter is given, by bytes starting with a
-    type the filter rejects) and the result is what a conformant reader makes of those items. -/
-theorem C15_no_short_value (ex : Option (List UInt8)) (bs : Bytes) (items : Items)
-    (h : decode ex bs = .ok items) :
-    ∃ raw rest, bs = rawEncode raw ++ rest ∧ (∀ r ∈ raw, r.2.length ≤ 255 ∧ filtered ex r.1 = false) ∧
-      (rest = [] ∨ ∃ k tl, rest = k :: tl ∧ filtered ex k = true) ∧ items = merge raw := by
+    sequence of complete wire items and the result is what a conformant reader makes of them. -/
+theorem C15_no_short_value (bs : Bytes) (items : Items) (h : decode none bs = .ok items) :
+    ∃ raw, bs = rawEncode raw ∧ (∀ r ∈ raw, r.2.length ≤ 255) ∧ items = merge raw := by
   unfold decode at h
+  rw [decodeAux_none] at h
   split at h
   · cases h
   · rename_i acc hacc
     cases h
-    obtain ⟨raw, rest, hbs, hall, hrest, hres⟩ := decodeAux_sound ex _ bs [] acc (Nat.le_refl _) hacc
-    exact ⟨raw, rest, hbs, hall, hrest, by rw [hres, foldl_push_merge_nil]⟩
+    obtain ⟨raw, hbs, hall, hres⟩ := decodeU_sound _ bs [] acc (Nat.le_refl _) hacc
+    exact ⟨raw, hbs, hall, by rw [hres, foldl_push_merge_nil]⟩
 
-/-- The `expected` filter: decoding stops silently at the first item whose type is not allowed
-    and returns the conformant reading of the whole items before it. -/
-theorem C15_expected_filter (ex : Option (List UInt8)) (raw : List (UInt8 × Bytes)) (rest : Bytes)
-    (hall : ∀ r ∈ raw, r.2.length ≤ 255 ∧ filtered ex r.1 = false)
-    (hrest : rest = [] ∨ ∃ k tl, rest = k :: tl ∧ filtered ex k = true) :
-    decode ex (rawEncode raw ++ rest) = .ok (merge raw) := by
+/-- with a filter, a stream of items whose types are all expected decodes as without a filter -/
+theorem decodeAux_allowed (ex : Option (List UInt8)) : ∀ (raw : List (UInt8 × Bytes)) (acc : Items) (fuel : Nat),
+    (∀ r ∈ raw, r.2.length ≤ 255 ∧ filtered ex r.1 = false) → (rawEncode raw).length ≤ fuel →
+    decodeAux ex fuel (rawEncode raw) acc false = decodeU fuel (rawEncode raw) acc := by
+  intro raw
+  induction raw with
+  | nil => intro acc fuel _ _; cases fuel <;> simp [rawEncode, decodeAux, decodeU]
+  | cons kv raw ih =>
+    obtain ⟨t, v⟩ := kv
+    intro acc fuel hall hf
+    have ht := hall (t, v) (by simp)
+    obtain ⟨fuel', rfl⟩ : ∃ f, fuel = f + 1 := by
+      cases fuel with
+      | zero => simp [rawEncode_cons] at hf
+      | succ f => exact ⟨f, rfl⟩
+    rw [rawEncode_cons] at hf ⊢
+    simp only [decodeAux, decodeU, ht.2, Bool.false_eq_true, if_false, toNat_ofNat_le _ ht.1]
+    have htake : (v ++ rawEncode raw).take v.length = v := List.take_left' rfl
+    have hdrop : (v ++ rawEncode raw).drop v.length = rawEncode raw := List.drop_left' rfl
+    simp only [htake, hdrop, ne_eq, not_true_eq_false, if_false]
+    apply ih _ _ (fun r hr => hall r (List.mem_cons_of_mem _ hr))
+    simp at hf ⊢; omega
+
+/-- **The `expected` filter, part 1**: a reply made only of expected types is decoded exactly as
+    without a filter - to the conformant reading of its items. -/
+theorem C15_expected_filter_allows (ex : Option (List UInt8)) (raw : List (UInt8 × Bytes))
+    (hall : ∀ r ∈ raw, r.2.length ≤ 255 ∧ filtered ex r.1 = false) :
+    decode ex (rawEncode raw) = .ok (merge raw) := by
   unfold decode
-  rw [decodeAux_raw ex raw rest [] _ hall hrest (Nat.le_refl _)]
+  rw [decodeAux_allowed ex raw [] _ hall (Nat.le_refl _),
+    decodeU_raw raw [] _ (fun r hr => (hall r hr).1) (Nat.le_refl _)]
   simp only [foldl_push_merge_nil]
 
-example : decode (some [6, 3]) (rawEncode [(6, [2]), (3, [1, 2])] ++ [7, 1, 2]) = .ok [(6, [2]), (3, [1, 2])] := by
-  decide
+theorem decodeAux_nil_flag (ex : Option (List UInt8)) (fuel : Nat) (bs : Bytes) :
+    decodeAux ex fuel bs [] true = decodeAux ex fuel bs [] false := by
+  cases fuel with
+  | zero => rfl
+  | succ n =>
+    match bs with
+    | [] => rfl
+    | [k] => simp [decodeAux]
+    | k :: len :: rest => simp [decodeAux, push]
+
+/-- **The `expected` filter, part 2**: an item of a type that is not expected is skipped - whatever
+    follows it (an Error item, say) is still decoded. -/
+theorem C15_expected_filter_skips (ex : Option (List UInt8)) (t : UInt8) (v rest : Bytes)
+    (hv : v.length ≤ 255) (ht : filtered ex t = true) :
+    decode ex (t :: UInt8.ofNat v.length :: (v ++ rest)) = decode ex rest := by
+  unfold decode
+  simp only [List.length_cons, decodeAux, ht, if_true, toNat_ofNat_le _ hv]
+  have hdrop : (v ++ rest).drop v.length = rest := List.drop_left' rfl
+  rw [hdrop, decodeAux_nil_flag]
+  have : ∀ f, rest.length ≤ f → decodeAux ex f rest [] false = decodeAux ex rest.length rest [] false := by
+    intro f hf
+    -- fuel beyond the input length is never used
+    have aux : ∀ (f1 f2 : Nat) (bs : Bytes) (acc : Items) (sk : Bool), bs.length ≤ f1 → bs.length ≤ f2 →
+        decodeAux ex f1 bs acc sk = decodeAux ex f2 bs acc sk := by
+      intro f1
+      induction f1 with
+      | zero =>
+        intro f2 bs acc sk h1 _
+        have : bs = [] := by cases bs <;> simp_all
+        subst this; cases f2 <;> simp [decodeAux]
+      | succ n ih =>
+        intro f2 bs acc sk h1 h2
+        match bs, f2 with
+        | [], f2 => cases f2 <;> simp [decodeAux]
+        | [k], f2 + 1 => simp [decodeAux]
+        | k :: len :: rest, 0 => simp at h2
+        | k :: len :: rest, f2 + 1 =>
+          have hd : (rest.drop len.toNat).length ≤ n := by simp at h1 ⊢; omega
+          have hd2 : (rest.drop len.toNat).length ≤ f2 := by simp at h2 ⊢; omega
+          simp only [decodeAux]
+          rw [ih f2 _ acc true hd hd2, ih f2 _ _ false hd hd2]
+    exact aux _ _ _ _ _ hf (Nat.le_refl _)
+  rw [this _ (by simp; omega)]
+
+example : decode (some [6, 7]) [6, 1, 4, 8, 1, 5, 7, 1, 3] = .ok [(6, [4]), (7, [3])] := by decide
 
 /-! ### BLE pairing fragment reassembly -/
 
